@@ -66,8 +66,9 @@ var c13APIs = []string{"ra-declared", "ra", "st", "skip-seek", "skip-stream", "d
 func allC13APIs() []string {
 	out := append([]string{}, c13APIs...)
 	for n := range genTypes {
-		out = append(out, "gen-decode:"+n, "gen-fromwire:"+n)
+		out = append(out, "gen-decode:"+n, "gen-fromwire:"+n, "gen-decode-seek:"+n)
 	}
+	out = append(out, "st-seek")
 	return out
 }
 
@@ -155,6 +156,20 @@ func runAPI(apiName string, b []byte) (ok bool, calls int, err error) {
 	case apiName == "frame":
 		fr := verifhook.NewFrameReader(io.Reader(cr))
 		_, err = fr.Read()
+	case apiName == "st-seek":
+		// the streaming reader over a seekable source (skips by seeking)
+		r := binary.Default.Reader(cs)
+		_, err = sx.ReadValue(r, wire.TStruct)
+		r.Close()
+	case len(apiName) > 16 && apiName[:16] == "gen-decode-seek:":
+		// generated streaming Decode over a seekable source: mistyped containers are skipped item by item, by seeking
+		mk, found := genTypes[apiName[16:]]
+		if !found {
+			return false, 0, fmt.Errorf("unknown generated type %q", apiName)
+		}
+		r := binary.Default.Reader(cs)
+		err = mk().(streamDecoder).Decode(r)
+		r.Close()
 	case len(apiName) > 11 && apiName[:11] == "gen-decode:":
 		mk, found := genTypes[apiName[11:]]
 		if !found {
